@@ -207,16 +207,23 @@ pub struct SplineOpts {
     pub periodic: Option<bool>,
     /// trailing lengths to choose from
     pub lens: &'static [usize],
+    /// occasional size stress: many lanes (32..96) on a short axis
+    pub stress: bool,
+    /// occasional long axes up to this length (checks without an exact per-lane oracle)
+    pub big_n: Option<usize>,
 }
 
 impl Default for SplineOpts {
     fn default() -> Self {
-        SplineOpts { max_n: 40, max_trailing_axes: 3, periodic: None, lens: &[1, 2, 3] }
+        SplineOpts { max_n: 40, max_trailing_axes: 3, periodic: None, lens: &[1, 2, 3], stress: true, big_n: None }
     }
 }
 
 impl SplineCase {
     pub fn gen<T: Flt>(src: &mut Src, o: &SplineOpts) -> SplineCase {
+        if o.stress && o.max_trailing_axes >= 1 && src.chance(1, 40) {
+            return Self::gen_stress::<T>(src, o);
+        }
         // n weighted to 3..12
         let n = match src.weighted(&[2, 2, 8, 2]) {
             0 => 3,
@@ -278,6 +285,44 @@ impl SplineCase {
         SplineCase { n, axis_class, x, trailing, lanes, data, bc, scale_e, dd, lay, xlay }
     }
 
+    /// size stress: many lanes on a short axis, or (if allowed) a long axis; bulk numbers from expanded entropy
+    fn gen_stress<T: Flt>(src: &mut Src, o: &SplineOpts) -> SplineCase {
+        let long = o.big_n.is_some() && src.bool();
+        let n = if long { src.usize_in(41, o.big_n.unwrap()) } else { src.usize_in(3, 7.min(o.max_n)) };
+        let trailing = if long { trailing_shape(src, 1, &[1, 2]) } else { wide_trailing(src, o.max_trailing_axes) };
+        let lanes = product(&trailing);
+        let axis_class = axis_class(src);
+        let scale_e = scale_exp::<T>(src);
+        let vclass = val_class(src);
+        let periodic = match o.periodic {
+            Some(p) => p,
+            None => src.chance(1, 8),
+        };
+        let kind = src.weighted(&[2, 1, 1, 4]);
+        let dd = if src.chance(1, 5) { DDim::Dyn } else { DDim::of_rank(1 + trailing.len()) };
+        let lay = crate::layout::pick_lay(src);
+        let xlay = crate::layout::pick_lay(src);
+        let ent = expand(src, 3 * n + 3 * n * lanes + 12 * lanes + 16);
+        let mut s2 = Src::new(&ent);
+        let x = axis::<T>(&mut s2, n, axis_class, Some(6));
+        let mut data = values::<T>(&mut s2, n * lanes, vclass, scale_e);
+        let h_typ = (x[n - 1] - x[0]) / (n - 1) as f64;
+        let bc = if periodic {
+            for l in 0..lanes {
+                data[(n - 1) * lanes + l] = data[l];
+            }
+            BcSel::Periodic
+        } else {
+            match kind {
+                0 => BcSel::NotAKnot,
+                1 => BcSel::Natural,
+                2 => BcSel::Clamped,
+                _ => BcSel::Individual((0..lanes).map(|_| lane_sel::<T>(&mut s2, scale_e, h_typ)).collect()),
+            }
+        };
+        SplineCase { n, axis_class, x, trailing, lanes, data, bc, scale_e, dd, lay, xlay }
+    }
+
     pub fn shape(&self) -> Vec<usize> {
         let mut s = vec![self.n];
         s.extend_from_slice(&self.trailing);
@@ -305,9 +350,13 @@ impl SplineCase {
             3 => "n:3",
             4 => "n:4",
             5..=12 => "n:5-12",
-            _ => "n:13-40",
+            13..=40 => "n:13-40",
+            _ => "n:41+",
         });
         out.class(format!("trailing_axes:{}", self.trailing.len()));
+        if self.lanes >= 32 {
+            out.class("lanes:32+");
+        }
         out.class(format!("ddim:{}", self.dd.name()));
         out.class(format!("datalayout:{}", self.lay.0.name()));
         if !is_uniform(&self.x) {
